@@ -27,13 +27,13 @@ ASSUMPTIONS = ['the reference release (mpmath 1.3.0) at 4*prec+100 bits evaluate
                'degree given: the tolerance uses dps_eff = min(dps, degree/k) with k = 2.37 (talbot: degree = 1.38*1.72 dps), 2.93 (stehfest), '
                '1.36 (dehoog), the methods\' own documented degree rules',
                'the working precision is restored by the harness after every call (precision restoration itself is property C11)']
-LEVEL_TEXT = ('exploration: ~2.5*10^3 (quick) / ~2.5*10^4 (thorough) inversions on the real code, each compared with the closed-form inverse')
+LEVEL_TEXT = ('exploration: ~2.5*10^3 (quick) / ~1.4*10^4 (thorough) inversions on the real code, each compared with the closed-form inverse')
 LEVEL_NOTE = 'transform pairs, times and precisions not generated are not covered; the oracle is the reference release at high precision'
 TECHNIQUE = 'runtime result monitor: closed-form reference for every returned inverse transform value'
 SHARD_TIMEOUT = {'quick': 1800, 'thorough': 7200}
 
 NSHARDS = 16
-COUNTS = {'quick': 160, 'thorough': 1600}
+COUNTS = {'quick': 160, 'thorough': 850}
 METHODS = ['talbot', 'stehfest', 'dehoog']
 FAMS = ['pole1', 'pole2', 'pole3', 'pole4', 'pf', 'sin', 'cos', 'j0', 'erfc', 'logp', 'one', 'ramp']
 FAMCLASS = {'pole1': 'real-poles', 'pole2': 'real-poles', 'pole3': 'real-poles', 'pole4': 'real-poles', 'pf': 'real-poles',
